@@ -16,6 +16,19 @@ type SchemaCache struct {
 	// referencePackage are reached from within a build, with the lock held.
 	mu       sync.Mutex
 	packages map[string]*Package
+
+	// added lists the refs created by the build in progress. When that build
+	// fails they are dropped again: they may link to the schema which did not
+	// build, and a later lookup must not find them half-linked.
+	added []*RefSchema
+}
+
+// rollback removes everything the failed build added to the cache.
+func (sc *SchemaCache) rollback() {
+	for _, ref := range sc.added {
+		delete(ref.Package.Schemas, ref.Schema)
+	}
+	sc.added = nil
 }
 
 func NewSchemaCache() *SchemaCache {
@@ -45,6 +58,7 @@ func (sc *SchemaCache) Schema(src protoreflect.MessageDescriptor) (RootSchema, e
 		Schema:  nameInPackage,
 	}
 	schemaPackage.Schemas[nameInPackage] = placeholder
+	sc.added = append(sc.added[:0], placeholder)
 
 	msgOptions := proto.GetExtension(src.Options(), ext_j5pb.E_Message).(*ext_j5pb.MessageOptions)
 	isOneofWrapper := isOneofWrapper(src, msgOptions)
@@ -57,11 +71,14 @@ func (sc *SchemaCache) Schema(src protoreflect.MessageDescriptor) (RootSchema, e
 	if err != nil {
 		// do not leave a typed nil behind: a later lookup must see "not built"
 		placeholder.To = nil
+		sc.rollback()
 		return nil, err
 	}
 	if placeholder.To.FullName() != placeholder.FullName() {
+		sc.rollback()
 		return nil, fmt.Errorf("schema %q has wrong name %q", placeholder.FullName(), placeholder.To.FullName())
 	}
+	sc.added = nil
 	return placeholder.To, nil
 }
 
@@ -76,6 +93,7 @@ func (sc *SchemaCache) refTo(pkg, schema string) (*RefSchema, bool) {
 		Schema:  schema,
 	}
 	refPackage.Schemas[schema] = refSchema
+	sc.added = append(sc.added, refSchema)
 
 	return refSchema, false
 }
